@@ -148,6 +148,14 @@ class World(BaseWorld):
                 terms[(labels[-1],)] = coef()     # make max_index what the label list says
         if rng.random() < c["p_offset"]:
             terms[()] = rng.choice(coefs + [7, -5])
+        if mtype == "dict" and n >= 2 and rng.random() < c.get("p_zero_entry", 0.1):
+            # a plain dict may carry explicit zero coefficients (over labels the model has anyway)
+            used = sorted({l for k in terms for l in k}, key=sort_key)
+            if len(used) >= 2:
+                k = tuple(rng.sample(used, 2)) if rng.random() < 0.7 else (rng.choice(used),)
+                if not any(set(k) == set(kk) for kk in terms):
+                    terms[k] = 0
+                    self.probe("dict_with_zero_coefficient")
         items = list(terms.items())
         rng.shuffle(items)
         edits = []
@@ -437,6 +445,9 @@ class World(BaseWorld):
         else:
             want_keys = set(reported)
             lo_keys = set(true_vars) if m["edits"] else want_keys
+        if m["type"] == "dict":
+            # labels that occur only in explicit zero-coefficient entries of a plain dict may or may not count as variables
+            lo_keys = set(true_vars)
         if m["type"] == "QUBOMatrix" and fnname == "pubo":
             # pubo_to_puso documents "PUBOMatrix -> PUSOMatrix, anything else -> PUSO", so this input legitimately
             # takes the labelled route and reports exactly the model's variables; both readings are accepted.
@@ -701,7 +712,7 @@ def gen_cfg(rng, prop, tier):
         "p_matrix": rng.choice([0.0, 0.3, 0.6, 0.9]),
         "p_gap": rng.choice([0.0, 0.3, 0.6]),
         "p_offset": rng.choice([0.0, 0.3, 0.7]),
-        "p_stale": rng.choice([0.0, 0.0, 0.15, 0.4]),
+        "p_stale": rng.choice([0.0, 0.0, 0.15, 0.4]), "p_zero_entry": rng.choice([0.0, 0.1, 0.3]),
         "p_init": rng.choice([0.0, 0.4, 0.8, 1.0]),
         "num_anneals": rng.choice([[1], [1, 2, 5], [-1, 0, 1, 2, 5], [2, 3], [1, 2, 5, 9], [7, 16, 33]]),
         "w_default_sched": rng.choice([0.3, 1, 3]),
